@@ -146,6 +146,14 @@ def testcase_designs():
   return ds
 
 # ---------------------------------------------------------------------- simulate / translate
+def apply_limit(v, bound):
+  """bound: an int (value taken modulo it) or a list of (lo, width, modulus): the bit field [lo, lo+width) is taken modulo"""
+  if isinstance(bound, int): return v % bound
+  for lo, w, mod in bound:
+    f = (v >> lo) & ((1 << w) - 1)
+    v = (v & ~(((1 << w) - 1) << lo)) | ((f % mod) << lo)
+  return v
+
 class Rejected(Exception):
   def __init__(s, stage, exc): s.stage, s.exc = stage, exc
 
@@ -181,7 +189,7 @@ def simulate(d, seed, ncycles):
       if rp == 's.reset': v = 1 if c < 2 else (1 if r.random() < 0.04 else 0)
       else: v = rand_value(r, T.nbits)
       for pat, bound in d.limits:
-        if re.search(pat, rp): v %= bound
+        if re.search(pat, rp): v = apply_limit(v, bound)
       ins[rp] = v
       env['__v'] = T.from_bits(Bits(T.nbits, v)) if hasattr(T, '__bitstruct_fields__') else Bits(T.nbits, v)
       exec(setters[rp], env)
